@@ -936,9 +936,11 @@ func c01scan(c *an.Ctx) {
 			continue
 		}
 		var popFail []an.Edge
+		var popErrs []ssa.Value
 		for _, pc := range an.CallsTo(fn, pop) {
 			_, f := an.ErrEdges(pc.Value())
 			popFail = append(popFail, f...)
+			popErrs = append(popErrs, an.ResultN(pc.Value(), 1)...)
 		}
 		loops := an.NaturalLoops(fn)
 		for _, pk := range peeks {
@@ -956,10 +958,16 @@ func c01scan(c *an.Ctx) {
 				continue
 			}
 			l := an.LoopContaining(loops, pk.Block())
-			q := &an.PathQ{Fn: fn, StartEdges: nonNil, Tracked: []ssa.Value{res[0]}, Sink: an.IsReturn,
+			q := &an.PathQ{Fn: fn, StartEdges: nonNil, Tracked: []ssa.Value{res[0]}, Keep: popErrs, Sink: an.IsReturn,
 				SinkEdge: func(e an.Edge, _ *an.PathState) bool { return l != nil && e.To == l.Header },
 				CutEdge:  func(e an.Edge, _ *an.PathState) bool { return an.EdgeIn(e, popFail) },
 				Cut: func(in ssa.Instruction, st *an.PathState) bool {
+					// the pop's error carried in a variable and tested later: the path knows the race was lost
+					for _, pe := range popErrs {
+						if _, isC := st.ConstOf(pe); isC && st.NonNil(pe) {
+							return true
+						}
+					}
 					ci, ok := in.(ssa.CallInstruction)
 					if !ok {
 						return false
